@@ -1758,7 +1758,10 @@ impl<'a, 'b> InternalDelphiLogicalLineParser<'a, 'b> {
                 }
             }
 
-            line_index -= 1;
+            let Some(previous) = line_index.checked_sub(1) else {
+                break;
+            };
+            line_index = previous;
         }
     }
 
